@@ -15,6 +15,15 @@ CLAIMED = {
             'resolution trace, termination, checker acceptance and equisatisfiability are judged by an independent brute-force oracle.',
             'Trusted: my truth table / resolution replay (60 lines); kernel checker for the Tseitin theorem. Says nothing about >3 variables.',
             'DESIGN.md §3 C15'),
+    'C01': ('exploration',
+            'bounded exhaustive saturation of primitive-rule derivation trees on the real checker, finite-model oracle',
+            'All derivation trees of height<=3 over the 15 primitive rules and the base-logic axioms, with rule arguments from an '
+            'adversarial alphabet, are linearised to Proof objects and given to theory.check_proof(no_gaps=True) (twice: the result '
+            'must not depend on history); every distinct accepted sequent is type-checked by a reference checker and evaluated in '
+            'all standard models with carriers of size <=2 (thorough <=3).',
+            'Trusted: mc/holsem.py (finite-model evaluator, self-tested on the base-logic axioms and on invalid sequents), mc/ref.py. '
+            'Finite models only refute; last-layer premises are bounded by sequent size; Some/The axioms are not used.',
+            'DESIGN.md §3 C01'),
 }
 
 PENDING_REASON = 'check not built yet in this round (planned, see DESIGN.md §3/§7); not claimed until its machinery exists'
